@@ -795,9 +795,28 @@ Lemma cf_levels_length : forall c cd dedup n rows,
 Proof. intros; rewrite (levels_unfold cf_row cf_score cf_lkey), map_length, seq_length; reflexivity. Qed.
 
 (* ---- one collection ---- *)
+(* number of levels with result files: the protein level comes after the rollup levels *)
+Definition fs_nres (g : fs_cfg) : nat := if fg_proteins g then S (fg_nlevels g) else fg_nlevels g.
+
+Lemma res_levels_seq : forall g, fs_res_levels g = seq 0 (fs_nres g).
+Proof. intro g; unfold fs_res_levels, fs_nres; destruct (fg_proteins g); reflexivity. Qed.
+
 Definition results_in (g : fs_cfg) (pfx : Z) (W : list fname) : Prop :=
-  forall lv, (lv < fg_nlevels g)%nat ->
+  forall lv, (lv < fs_nres g)%nat ->
     fs_mem (NResult pfx false lv) W = true /\ (fg_decoys g = true -> fs_mem (NResult pfx true lv) W = true).
+
+(* a protein level needs a peptide level to read from, and its oracle *)
+Definition prot_ok (g : fs_cfg) (cl : fs_coll) : Prop :=
+  fg_proteins g = true -> (1 < fg_nlevels g)%nat /\ fc_prot cl <> None.
+
+Lemma coll_ops_shape_g : forall g ap cl, fg_glob g = false ->
+  fs_coll_ops g ap cl =
+  fs_result_inits g (fc_pfx cl) ap ++ fs_chunk_ops g (fc_pfx cl) (fc_rows cl) ++
+  (fs_level_ops g (fc_pfx cl) (fc_rows cl) ++ map OUnlink (fs_chunk_names g (fc_pfx cl) (fc_rows cl))) ++
+  fs_prot_ops g cl ++
+  fs_result_ops g (fc_pfx cl)
+    (cf_levels cf_row cf_score cf_lkey (fg_c g) (fg_dedup g) (fg_dedup g) (fg_nlevels g) (fc_rows cl) ++ fs_prot_levels g cl).
+Proof. intros g ap cl H; unfold fs_coll_ops; rewrite H; reflexivity. Qed.
 
 Lemma coll_ops_shape : forall g ap cl, fg_glob g = false -> fg_proteins g = false ->
   fs_coll_ops g ap cl =
@@ -809,25 +828,39 @@ Proof.
   intros g ap cl H Hp; unfold fs_coll_ops, fs_prot_ops, fs_prot_levels; rewrite H, Hp. cbn [app]. rewrite app_nil_r. reflexivity.
 Qed.
 
-Lemma coll_ops_wf : forall g ap cl W, fg_glob g = false -> fg_proteins g = false ->
+Lemma prot_ops_cases : forall g cl, prot_ok g cl ->
+  (fg_proteins g = false /\ fs_prot_ops g cl = [] /\ fs_prot_levels g cl = []) \/
+  (fg_proteins g = true /\ (1 < fg_nlevels g)%nat /\ exists ids prows,
+     fs_prot_ops g cl = [OWrite (NLevel (fg_nlevels g) (fg_ext g)) [NLevel 1 (fg_ext g)] (KProteins ids prows)] /\
+     fs_prot_levels g cl = [prows]).
+Proof.
+  intros g cl Hok. unfold fs_prot_ops, fs_prot_levels, prot_ok in *. destruct (fg_proteins g) eqn:Ep.
+  - right. destruct (Hok eq_refl) as [Hnl Hpr]. split; [reflexivity|]. split; [exact Hnl|].
+    destruct (fc_prot cl) as [[ids prows]|]; [|congruence]. exists ids, prows. split; reflexivity.
+  - left. repeat split.
+Qed.
+
+Lemma coll_ops_wf : forall g ap cl W, fg_glob g = false -> prot_ok g cl ->
   (ap = true -> results_in g (fc_pfx cl) W) ->
   cwf W (fs_coll_ops g ap cl) = true /\
   results_in g (fc_pfx cl) (cowned W (fs_coll_ops g ap cl)) /\
   (forall n, is_result n = true -> fs_mem n W = true -> fs_mem n (cowned W (fs_coll_ops g ap cl)) = true) /\
   (forall n, is_result n = false -> fs_mem n W = false -> fs_mem n (cowned W (fs_coll_ops g ap cl)) = false).
 Proof.
-  intros g ap cl W Hg Hp Hap. rewrite (coll_ops_shape g ap cl Hg Hp).
+  intros g ap cl W Hg Hok Hap. rewrite (coll_ops_shape_g g ap cl Hg).
   set (pfx := fc_pfx cl). set (rows := fc_rows cl).
   set (A := fs_result_inits g pfx ap). set (B := fs_chunk_ops g pfx rows).
   set (C := fs_level_ops g pfx rows). set (names := fs_chunk_names g pfx rows).
-  set (levels := cf_levels _ _ _ _ _ _ _ _). set (E := fs_result_ops g pfx levels).
+  set (levels := cf_levels _ _ _ _ _ _ _ _).
+  set (P := fs_prot_ops g cl). set (pl := fs_prot_levels g cl).
+  set (E := fs_result_ops g pfx (levels ++ pl)).
   set (W1 := cowned W A). set (W2 := cowned W1 B). set (W3 := cowned W2 C).
-  set (W4 := cowned W3 (map OUnlink names)).
+  set (W4 := cowned W3 (map OUnlink names)). set (W5 := cowned W4 P).
   (* results are owned after A *)
   assert (R1 : results_in g pfx W1).
   { intros lv Hlv. destruct ap.
     - unfold W1, A; cbn. apply (Hap eq_refl); exact Hlv.
-    - unfold W1, A. rewrite (inits_eq g pfx Hp). split; [|intro Hd];
+    - unfold W1, A. rewrite inits_eq_gen, res_levels_seq. split; [|intro Hd];
         apply init_steps_owned; try (apply in_seq; lia); [discriminate | intros _; exact Hd]. }
   assert (S12 : fs_sub W1 W2) by (apply owned_sub; unfold B; rewrite chunk_ops_eq; apply chunk_steps_removed).
   assert (N2 : forall n, In n names -> fs_mem n W2 = true) by (intros n Hn; apply chunk_ops_owned; exact Hn).
@@ -845,71 +878,105 @@ Proof.
     - rewrite MemD, (S23 _ (S12 _ (H1 Hd))), notname; reflexivity. }
   assert (L4 : forall lv, (lv < fg_nlevels g)%nat -> fs_mem (NLevel lv (fg_ext g)) W4 = true).
   { intros lv Hlv. rewrite MemD, (LvC lv Hlv), notname; reflexivity. }
-  destruct (result_steps_wf g pfx (combine (seq 0 (fg_nlevels g)) levels) W4) as [WfE RmE].
+  (* the protein step *)
+  assert (Hlen : length levels = fg_nlevels g) by apply cf_levels_length.
+  assert (HP : cwf W4 P = true /\ removed P = [] /\ fs_sub W4 W5 /\
+               (forall lv, (lv < fs_nres g)%nat -> fs_mem (NLevel lv (fg_ext g)) W5 = true) /\
+               length (levels ++ pl) = fs_nres g /\
+               (forall n, fs_mem n (created P) = true -> n = NLevel (fg_nlevels g) (fg_ext g) /\ fg_proteins g = true) /\
+               (forall n, fs_mem n W4 = false -> fs_mem n (created P) = false -> fs_mem n W5 = false)).
+  { unfold W5. destruct (prot_ops_cases g cl Hok) as [[Ep [EP Epl]] | [Ep [Hnl [ids [prows [EP Epl]]]]]]; fold P pl in EP, Epl; rewrite EP, Epl.
+    - cbn [wf_ops owned_after removed created fs_mem]. unfold fs_nres. rewrite Ep, app_nil_r.
+      split; [reflexivity|]. split; [reflexivity|]. split; [apply fs_sub_refl|]. split; [exact L4|].
+      split; [exact Hlen|]. split; [intros n Hn; discriminate | intros n Hn _; exact Hn].
+    - cbn [wf_ops owned_after removed created forallb]. unfold fs_nres. rewrite Ep.
+      rewrite (L4 1%nat Hnl). cbn [andb].
+      split; [reflexivity|]. split; [reflexivity|].
+      split; [intros n Hn; cbn [fs_mem]; rewrite Hn, orb_true_r; reflexivity|].
+      split.
+      { intros lv Hlv. cbn [fs_mem]. destruct (Nat.eq_dec lv (fg_nlevels g)) as [->|N].
+        - rewrite fname_eqb_refl. reflexivity.
+        - rewrite (L4 lv ltac:(lia)), orb_true_r. reflexivity. }
+      split; [rewrite app_length, Hlen; cbn; lia|].
+      split.
+      { intros n Hn. cbn [fs_mem] in Hn. rewrite orb_false_r in Hn. apply fname_eqb_eq in Hn. split; [symmetry; exact Hn | reflexivity]. }
+      intros n Hn Hc. cbn [fs_mem] in *. rewrite orb_false_r in Hc. rewrite Hc, Hn. reflexivity. }
+  destruct HP as [WfP [RmP [S45 [L5 [Hlen5 [CrP KeepP]]]]]].
+  assert (R5 : results_in g pfx W5).
+  { intros lv Hlv. destruct (R4 lv Hlv) as [H0 H1]. split; [apply S45; exact H0 | intro Hd; apply S45, H1; exact Hd]. }
+  destruct (result_steps_wf g pfx (combine (seq 0 (fs_nres g)) (levels ++ pl)) W5) as [WfE RmE].
   { apply nodup_fst_combine, seq_NoDup. }
   { intros lv rws Hin. apply in_combine_l in Hin. apply in_seq in Hin.
-    destruct (R4 lv) as [H0 H1]; [lia|]. repeat split; [exact H0 | exact H1 | apply L4; lia]. }
-  rewrite <- (result_ops_eq g pfx levels Hp) in WfE, RmE. fold E in WfE, RmE.
+    destruct (R5 lv) as [H0 H1]; [lia|]. repeat split; [exact H0 | exact H1 | apply L5; lia]. }
+  assert (EE : E = flat_map (result_step g pfx) (combine (seq 0 (fs_nres g)) (levels ++ pl))).
+  { unfold E. rewrite result_ops_eq_gen, res_levels_seq. reflexivity. }
+  rewrite <- EE in WfE, RmE.
   (* assemble *)
-  rewrite !wf_ops_app, !owned_after_app. fold W1 W2 W3 W4.
+  rewrite !wf_ops_app, !owned_after_app. fold W1 W2 W3 W4 W5.
   assert (RmAll : forall n, is_result n = true ->
-            fs_mem n (removed (A ++ B ++ (C ++ map OUnlink names) ++ E)) = false).
+            fs_mem n (removed (A ++ B ++ (C ++ map OUnlink names) ++ P ++ E)) = false).
   { intros n Hn. rewrite !removed_app. unfold A; rewrite inits_removed.
-    unfold B; rewrite chunk_ops_eq, chunk_steps_removed. rewrite RmC, removed_unlinks. cbn [app].
+    unfold B; rewrite chunk_ops_eq, chunk_steps_removed. rewrite RmC, removed_unlinks, RmP. cbn [app].
     rewrite fs_mem_app. rewrite notname by (destruct n; try discriminate; reflexivity). cbn [orb].
     apply (forallb_not_mem is_level); [exact RmE | destruct n; try discriminate; reflexivity]. }
   split; [|split; [|split]].
-  - unfold A; rewrite inits_wf. unfold B; rewrite chunk_ops_eq, chunk_steps_wf. rewrite WfC, WfD, WfE. reflexivity.
-  - intros lv Hlv. destruct (R4 lv Hlv) as [H0 H1]. split; [|intro Hd].
+  - unfold A; rewrite inits_wf. unfold B; rewrite chunk_ops_eq, chunk_steps_wf. rewrite WfC, WfD, WfP, WfE. reflexivity.
+  - intros lv Hlv. destruct (R5 lv Hlv) as [H0 H1]. split; [|intro Hd].
     + apply owned_persist; [exact H0 | apply (forallb_not_mem is_level); [exact RmE | reflexivity]].
     + apply owned_persist; [exact (H1 Hd) | apply (forallb_not_mem is_level); [exact RmE | reflexivity]].
   - intros n Hn HW.
-    pose proof (owned_persist cfn (A ++ B ++ (C ++ map OUnlink names) ++ E) W n HW (RmAll n Hn)) as P.
-    rewrite !owned_after_app in P. exact P.
+    pose proof (owned_persist cfn (A ++ B ++ (C ++ map OUnlink names) ++ P ++ E) W n HW (RmAll n Hn)) as Q.
+    rewrite !owned_after_app in Q. exact Q.
   - intros n Hn HW.
     assert (F1 : fs_mem n W1 = false).
     { apply not_owned_persist; [exact HW|]. apply (forallb_not_mem is_result); [apply inits_created | exact Hn]. }
+    (* a level file of this run (rollup level or protein level) is removed in phase E *)
+    assert (LevelGone : forall lv, (lv < fs_nres g)%nat -> n = NLevel lv (fg_ext g) -> fs_mem n (cowned W5 E) = false).
+    { intros lv Hlv ->. apply removed_not_owned; [|unfold E; rewrite result_ops_created; reflexivity].
+      rewrite EE.
+      assert (Hin : In (lv, nth lv (levels ++ pl) []) (combine (seq 0 (fs_nres g)) (levels ++ pl))).
+      { rewrite <- Hlen5. rewrite <- Hlen5 in Hlv. apply (combine_seq_nth (levels ++ pl) 0 lv Hlv). }
+      revert Hin. generalize (combine (seq 0 (fs_nres g)) (levels ++ pl)) as l.
+      induction l as [|y r IH]; intros Hin; [destruct Hin|]. cbn [flat_map]. rewrite removed_app, fs_mem_app.
+      destruct Hin as [->|Hin]; [|rewrite (IH Hin), orb_true_r; reflexivity].
+      unfold result_step. rewrite removed_app, fs_mem_app. cbn. rewrite Nat.eqb_refl, eqb_reflx, !orb_true_r. reflexivity. }
     destruct (fs_mem n names) eqn:Enames.
     + (* one of this run's chunk files: removed in phase D, never created again *)
       apply not_owned_persist; [|unfold E; rewrite result_ops_created; reflexivity].
-      rewrite MemD, Enames, andb_false_r; reflexivity.
+      apply KeepP; [rewrite MemD, Enames, andb_false_r; reflexivity|].
+      destruct (fs_mem n (created P)) eqn:EP; [|reflexivity]. destruct (CrP n EP) as [-> _].
+      apply fs_mem_In in Enames. apply chunk_names_are_chunks in Enames. discriminate.
     + assert (F2 : fs_mem n W2 = false).
       { apply not_owned_persist; [exact F1|]. destruct (fs_mem n (created B)) eqn:EB; [|reflexivity].
         apply chunk_ops_created in EB. apply fs_mem_In in EB. unfold names in Enames. rewrite EB in Enames; discriminate. }
       destruct (fs_mem n (created C)) eqn:EC.
-      * (* one of this run's level files: removed in phase E *)
-        apply level_ops_created in EC. destruct EC as [lv [Hlv ->]].
-        apply removed_not_owned; [|unfold E; rewrite result_ops_created; reflexivity].
-        unfold E. rewrite (result_ops_eq g pfx levels Hp).
-        assert (Hin : In (lv, nth lv levels []) (combine (seq 0 (fg_nlevels g)) levels)).
-        { assert (Hl : length levels = fg_nlevels g) by apply cf_levels_length.
-          rewrite <- Hl. rewrite <- Hl in Hlv.
-          apply (combine_seq_nth levels 0 lv Hlv). }
-        revert Hin. generalize (combine (seq 0 (fg_nlevels g)) levels) as l.
-        induction l as [|y r IH]; intros Hin; [destruct Hin|]. cbn [flat_map]. rewrite removed_app, fs_mem_app.
-        destruct Hin as [->|Hin]; [|rewrite (IH Hin), orb_true_r; reflexivity].
-        unfold result_step. rewrite removed_app, fs_mem_app. cbn. rewrite Nat.eqb_refl, eqb_reflx, !orb_true_r. reflexivity.
-      * assert (F3 : fs_mem n W3 = false) by (apply not_owned_persist; [exact F2 | exact EC]).
-        apply not_owned_persist; [|unfold E; rewrite result_ops_created; reflexivity].
-        rewrite MemD, F3; reflexivity.
+      * apply level_ops_created in EC. destruct EC as [lv [Hlv Heq]].
+        apply (LevelGone lv); [unfold fs_nres; destruct (fg_proteins g); lia | exact Heq].
+      * destruct (fs_mem n (created P)) eqn:EP.
+        -- destruct (CrP n EP) as [Heq Ep]. apply (LevelGone (fg_nlevels g)); [unfold fs_nres; rewrite Ep; lia | exact Heq].
+        -- assert (F3 : fs_mem n W3 = false) by (apply not_owned_persist; [exact F2 | exact EC]).
+           apply not_owned_persist; [|unfold E; rewrite result_ops_created; reflexivity].
+           apply KeepP; [rewrite MemD, F3; reflexivity | exact EP].
 Qed.
 
 (* ---- the whole run ---- *)
-Lemma colls_ops_wf : forall g cls seen W, fg_glob g = false -> fg_append g = false -> fg_proteins g = false ->
+Lemma colls_ops_wf : forall g cls seen W, fg_glob g = false -> fg_append g = false ->
+  (forall cl, In cl cls -> prot_ok g cl) ->
   (seen = true -> results_in g 0 W) ->
   cwf W (fs_colls_ops g seen cls) = true /\
   (forall cl, In cl cls -> results_in g (fc_pfx cl) (cowned W (fs_colls_ops g seen cls))) /\
   (forall n, is_result n = true -> fs_mem n W = true -> fs_mem n (cowned W (fs_colls_ops g seen cls)) = true) /\
   (forall n, is_result n = false -> fs_mem n W = false -> fs_mem n (cowned W (fs_colls_ops g seen cls)) = false).
 Proof.
-  intros g cls; induction cls as [|cl r IH]; intros seen W Hg Ha Hp Hseen; cbn [fs_colls_ops].
+  intros g cls; induction cls as [|cl r IH]; intros seen W Hg Ha Hok Hseen; cbn [fs_colls_ops].
   - cbn. split; [reflexivity|]. split; [intros cl []|]. split; intros n _ H; exact H.
   - rewrite Ha. cbn [orb].
     assert (Hap' : (seen && (fc_pfx cl =? 0))%bool = true -> results_in g (fc_pfx cl) W).
     { intro E. apply andb_true_iff in E. destruct E as [E1 E2]. apply Z.eqb_eq in E2. rewrite E2. apply Hseen; exact E1. }
-    destruct (coll_ops_wf g (seen && (fc_pfx cl =? 0))%bool cl W Hg Hp Hap') as [Wf1 [Res1 [Keep1 Out1]]].
+    destruct (coll_ops_wf g (seen && (fc_pfx cl =? 0))%bool cl W Hg (Hok cl (or_introl eq_refl)) Hap') as [Wf1 [Res1 [Keep1 Out1]]].
     set (W1 := cowned W (fs_coll_ops g (seen && (fc_pfx cl =? 0))%bool cl)) in *.
-    destruct (IH (seen || (fc_pfx cl =? 0))%bool W1 Hg Ha Hp) as [Wf2 [Res2 [Keep2 Out2]]].
+    destruct (IH (seen || (fc_pfx cl =? 0))%bool W1 Hg Ha) as [Wf2 [Res2 [Keep2 Out2]]].
+    { intros cl' Hin; apply Hok; right; exact Hin. }
     { intro E. apply orb_true_iff in E. destruct E as [E|E].
       - intros lv Hlv. destruct (Hseen E lv Hlv) as [A B]. split; [|intro Hd]; apply Keep1; auto.
       - apply Z.eqb_eq in E. rewrite <- E. exact Res1. }
@@ -920,36 +987,43 @@ Proof.
     + intros n Hn HW. apply Out2; [exact Hn|]. apply Out1; assumption.
 Qed.
 
+(* [run_okp]: the general guard (a protein level is allowed when there is a peptide level and the oracle is given);
+   [run_ok]: no protein level — the guard of the refinement theorems in FsValP.v *)
+Definition run_okp (g : fs_cfg) : Prop :=
+  fg_glob g = false /\ fg_append g = false /\ forall cl, In cl (fg_colls g) -> prot_ok g cl.
 Definition run_ok (g : fs_cfg) : Prop := fg_glob g = false /\ fg_append g = false /\ fg_proteins g = false.
 
-Theorem run_ops_wf : forall g, run_ok g -> cwf [] (fs_run_ops g) = true.
+Lemma run_ok_okp : forall g, run_ok g -> run_okp g.
+Proof. intros g [Hg [Ha Hp]]. split; [exact Hg|]. split; [exact Ha|]. intros cl _ E. congruence. Qed.
+
+Theorem run_ops_wf : forall g, run_okp g -> cwf [] (fs_run_ops g) = true.
 Proof.
-  intros g [Hg [Ha Hp]]. unfold fs_run_ops.
-  apply (colls_ops_wf g (fg_colls g) false [] Hg Ha Hp). discriminate.
+  intros g [Hg [Ha Hok]]. unfold fs_run_ops.
+  apply (colls_ops_wf g (fg_colls g) false [] Hg Ha Hok). discriminate.
 Qed.
 
-Lemma result_names_owned : forall g, run_ok g ->
+Lemma result_names_owned : forall g, run_okp g ->
   forall n, In n (fs_result_names g) -> fs_mem n (cowned [] (fs_run_ops g)) = true.
 Proof.
-  intros g [Hg [Ha Hp]] n Hn. unfold fs_run_ops.
-  destruct (colls_ops_wf g (fg_colls g) false [] Hg Ha Hp) as [_ [Res _]]; [discriminate|].
-  unfold fs_result_names in Hn. rewrite (res_levels_noprot g Hp) in Hn. apply in_flat_map in Hn. destruct Hn as [cl [Hcl Hn]].
+  intros g [Hg [Ha Hok]] n Hn. unfold fs_run_ops.
+  destruct (colls_ops_wf g (fg_colls g) false [] Hg Ha Hok) as [_ [Res _]]; [discriminate|].
+  unfold fs_result_names in Hn. rewrite res_levels_seq in Hn. apply in_flat_map in Hn. destruct Hn as [cl [Hcl Hn]].
   apply in_flat_map in Hn. destruct Hn as [lv [Hlv Hn]]. apply in_seq in Hlv.
   destruct (Res cl Hcl lv) as [A B]; [lia|].
   destruct Hn as [<-|Hn]; [exact A|].
   destruct (fg_decoys g) eqn:Ed; [|destruct Hn]. destruct Hn as [<-|[]]. apply B; reflexivity.
 Qed.
 
-Lemma only_results_owned : forall g, run_ok g ->
+Lemma only_results_owned : forall g, run_okp g ->
   forall n, is_result n = false -> fs_mem n (cowned [] (fs_run_ops g)) = false.
 Proof.
-  intros g [Hg [Ha Hp]] n Hn. unfold fs_run_ops.
-  destruct (colls_ops_wf g (fg_colls g) false [] Hg Ha Hp) as [_ [_ [_ Out]]]; [discriminate|].
+  intros g [Hg [Ha Hok]] n Hn. unfold fs_run_ops.
+  destruct (colls_ops_wf g (fg_colls g) false [] Hg Ha Hok) as [_ [_ [_ Out]]]; [discriminate|].
   apply Out; [exact Hn | reflexivity].
 Qed.
 
 (* results are a function of the run's configuration only: two arbitrary directories *)
-Theorem run_independent : forall g sA sB, run_ok g ->
+Theorem run_independent : forall g sA sB, run_okp g ->
   match fs_run g None sA, fs_run g None sB with
   | Some a, Some b => forall n, In n (fs_result_names g) -> fs_get ccontent a n = fs_get ccontent b n
   | None, None => True
@@ -967,7 +1041,7 @@ Proof.
 Qed.
 
 (* after a successful run: no chunk file or level file the run used is left *)
-Theorem run_no_intermediates : forall g s s', run_ok g -> fs_run g None s = Some s' ->
+Theorem run_no_intermediates : forall g s s', run_okp g -> fs_run g None s = Some s' ->
   forall n, fs_mem n (touched cfn (fs_run_ops g)) = true -> is_result n = false ->
   fs_get ccontent s' n = None.
 Proof.
@@ -977,7 +1051,7 @@ Proof.
 Qed.
 
 (* files the run does not name are left exactly as they were (in particular every input file) *)
-Theorem run_untouched : forall g s s', run_ok g -> fs_run g None s = Some s' ->
+Theorem run_untouched : forall g s s', run_okp g -> fs_run g None s = Some s' ->
   forall n, fs_mem n (touched cfn (fs_run_ops g)) = false -> fs_get ccontent s' n = fs_get ccontent s n.
 Proof.
   intros g s s' Hok He n Hn.
